@@ -912,7 +912,7 @@ func c19GenReject(rt *rapid.T, repoPatches []corpus.File) *c19Case {
 }
 
 func c19DrawVia(rt *rapid.T, cs *c19Case) {
-	cs.Name = rapid.SampledFrom([]string{"p.patch", "p.patch", "fix.patch", "sub/dir/my.patch", "patches/é.patch", "a.b/c", "x-y_z.patch"}).Draw(rt, "name")
+	cs.Name = rapid.SampledFrom([]string{"p.patch", "p.patch", "fix.patch", "sub/dir/my.patch", "patches/é.patch", "a.b/c", "x-y_z.patch", "fix%20bug.patch", "100%.patch", "50%done/fix %s.patch", "a:b.patch", "with space/p q.patch"}).Draw(rt, "name")
 	cs.Via = rapid.SampledFrom([]string{"p", "p", "p", "abs", "P", "p2"}).Draw(rt, "via")
 }
 
